@@ -275,3 +275,213 @@ Theorem C18_tarjan_correct : forall g edges, g_wf g ->
     scc_spec g comps /\ (edges = true -> scc_edges_spec g comps outs).
 Proof. exact tarjan_correct. Qed.
 Print Assumptions C18_tarjan_correct.
+
+(* ================= comparator soundness: what an accepted case line means ================= *)
+(* (group hI)  The check of this property accepts a case line when check_C18 (Check/C18.v) returns
+   code 0 (it never returns the borderline code 1).  The theorems below say what that implies, with no
+   reference to the executable models: the line is 18 :: op :: rest with op in 1..11, [rest] is EXACTLY
+   the stated encoding of the case of that operation (graphs as n {deg target*}^n = enc_graph, integer
+   lists count-prefixed = enc_Zs / enc_Zss; nothing is left over), the argument graph is well-formed, the
+   "pure" flag is 1 and the arguments printed after the calls equal the arguments, and every observed
+   value equals the specification-level value.  Proofs: Proofs/CheckC18*.v, composed with the
+   model-meets-specification theorems above. *)
+From MM Require Import Check.C18 Proofs.CheckBase Proofs.CheckC18Base Proofs.CheckC18Marks Proofs.CheckC18Trav Proofs.CheckC18Scc
+  Proofs.CheckC18Graph Proofs.CheckC18Sub Proofs.CheckC18Dot Proofs.CheckC18Hist Proofs.CheckC18.
+Local Open Scope Z_scope.
+
+(* the dispatch: every accepted line is a completely decoded case of one of the eleven operations *)
+Theorem C18_check_ok_sound : forall line c tag pos diag,
+  check_C18 line = verdict c tag pos diag -> c = 0 \/ c = 1 ->
+  c = 0 /\ exists op rest, line = 18 :: op :: rest /\
+    ((op = 1 /\ marks_case_ok rest) \/ (op = 2 /\ trav_case_ok rest) \/ (op = 3 /\ scc_case_ok rest) \/
+     (op = 4 /\ bigraph_case_ok rest) \/ (op = 5 /\ equal_case_ok rest) \/ (op = 6 /\ simplify_case_ok rest) \/
+     (op = 7 /\ keep_case_ok rest) \/ (op = 8 /\ remove_case_ok rest) \/
+     (op = 9 /\ dotstring_case_ok rest) \/ (op = 10 /\ sprint_case_ok rest) \/ (op = 11 /\ hist_case_ok rest)).
+Proof. exact check_ok_sound. Qed.
+Print Assumptions C18_check_ok_sound.
+
+(* What the ten case predicates of C18_check_ok_sound say (they are definitions of Proofs/CheckC18*.v; the
+   equivalences below hold by unfolding).
+   op 1, NodeMarks: the line is a non-empty history of (operation, observed answer) entries (code id obs;
+   code 0 Mark, 1 Unmark, 2 Test, 3 Next) and every observed answer is the answer of a plain SET of
+   integers, starting empty (set_run, Proofs/CheckC18Marks.v: Mark/Unmark observed 0 = returned normally
+   and add/remove the id; Test(i) = 1 iff i is in the set; Next(i) = the least member greater than i, or -1
+   when there is none).
+   op 2, PreOrder / PostOrder / Reverse / Euler, for every recorded root (at least one): a root outside
+   the graph has status 2 (a call panicked) and all its seven lists are empty; a root r < n has status 0 and ONE
+   event sequence evs satisfying the depth-first specification from the empty visited set such that
+   PreOrder = its Enter projection, PostOrder = its Exit projection, Reverse(PostOrder) - both the
+   returned slice and the argument slice afterwards - = the reversed Exit projection, Euler's callback
+   sequence = evs (event codes 2*node Enter, 2*node+1 Exit), Euler with only Enter / only Exit = the
+   projections of evs.
+   op 3, SCC: status 0; the observed components satisfy scc_spec (partition of the nodes; same component
+   iff mutually reachable; every edge leads to an equal or smaller component id); hascof = 1 exactly when
+   flags <> 0 and then SubnodeComponent has one entry per node, the entry of each node being the index of
+   the component containing it; one Out list per component, satisfying scc_edges_spec with SCCEdges (bit
+   1 of flags) and all empty without it. *)
+Theorem C18_check_meaning_traversals : forall rest,
+  (marks_case_ok rest <->
+     exists h : list (mop * Z), rest = Z.of_nat (length h) :: flat_map enc_mop h /\ h <> [] /\ set_run (fun _ => False) h) /\
+  (trav_case_ok rest <->
+     exists g obs, rest = enc_graph g ++ Z.of_nat (length obs) :: flat_map enc_trav obs ++ 1 :: enc_graph g /\
+       g_wf g /\ obs <> [] /\
+       Forall (fun o =>
+         ((t_root o < 0 \/ Z.of_nat (length g) <= t_root o) ->
+            t_status o = 2 /\ t_pre o = [] /\ t_post o = [] /\ t_rev o = [] /\ t_rva o = [] /\ t_eul o = [] /\ t_ent o = [] /\ t_ext o = []) /\
+         (0 <= t_root o < Z.of_nat (length g) ->
+            t_status o = 0 /\
+            exists evs V', dfs_node (g_out g) [] (Z.to_N (t_root o)) evs V' /\
+              t_pre o = ZsN (enters evs) /\ t_post o = ZsN (exits evs) /\
+              t_rev o = ZsN (rev (exits evs)) /\ t_rva o = ZsN (rev (exits evs)) /\
+              t_eul o = map ev_code evs /\
+              t_ent o = map ev_code (filter is_enter evs) /\ t_ext o = map ev_code (filter is_exit evs))) obs) /\
+  (scc_case_ok rest <->
+     exists g flags compsN hascof cof outsN,
+       rest = enc_graph g ++ flags :: 0 :: enc_Zss (map ZsN compsN) ++ hascof :: enc_Zs cof ++ enc_Zss (map ZsN outsN) ++ 1 :: enc_graph g /\
+       g_wf g /\
+       scc_spec g compsN /\
+       hascof = (if flags =? 0 then 0 else 1) /\
+       (flags = 0 -> cof = []) /\
+       (flags <> 0 -> length cof = length g /\
+          forall c v, In v (comp_at compsN c) -> nth (N.to_nat v) cof (-1) = Z.of_nat c) /\
+       length outsN = length compsN /\
+       (if Z.testbit flags 1 then scc_edges_spec g compsN outsN else Forall (fun l => l = []) outsN)).
+Proof. exact case_meaning_traversals. Qed.
+Print Assumptions C18_check_meaning_traversals.
+
+(* ops 4-6.  MakeBiGraph: status 0, In(j) holds i exactly as often as Out(i) holds j (sources ascending),
+   NumNodes/Out of the result are the argument's, idem = 1 (MakeBiGraph(b) == b).  Equal: the result, in
+   both argument orders, is 1 exactly when the node counts agree and the adjacency lists are equal as
+   multisets node by node, else 0.  SimplifyMulti: status 0; per node the observed targets are the input
+   targets in first-occurrence order, each once, and each observed weight equals (Qeq) the sum of the weights
+   of the merged parallel edges - the multiplicity for a plain graph (weighted = 0); weights are the decoded
+   float64 bit patterns (wadj_decodes).
+   ops 7, 8.  In general the observation is the model's value (status 2 and no rows exactly when the model
+   panics, else status 0 and the rows NodeMap / Out / EdgeMap are the rows of the model's result: sg_matches,
+   sg_row).  SubgraphKeep on a well-formed request (no negative number; keep_wf) and SubgraphRemove on
+   EVERY request satisfy the specification: Keep returns the requested subgraph (keep_spec_concl = the
+   conclusion of C18_subgraph_keep_spec), Remove returns the surviving nodes and edges in ascending order
+   (remove_spec_concl = the conclusion of C18_subgraph_remove_spec) or panics exactly when more distinct
+   ids are to be removed than there are nodes.
+   ops 9, 10.  DotString: status 0, the observed bytes are dot_string of the argument AND the proved reader
+   applied to the OBSERVED bytes restores the argument.  Sprint: either status 0 and the observed text is
+   "digraph " ++ quoted name ++ " {\n" ++ body ++ "}\n" with body the rendering of dot_stmts (every node and
+   every edge named once, in order), or status 2, no output bytes, and some statement carries an attribute whose
+   value has an unsupported type.
+   op 11, a history of k >= 1 calls (ops 2-8, 10) on ONE graph object: the line is k { len op sub }^k with
+   len = 1 + |sub|; there is one graph g such that every sub-line begins with the encoding of g (the graph
+   printed before every step is the graph printed before the first step) and every step satisfies the case
+   predicate of its operation on its sub-line - which includes that the argument printed after the call is the
+   argument printed before it, so the object is the same graph throughout the history. *)
+Theorem C18_check_meaning_graphops : forall rest,
+  (bigraph_case_ok rest <-> exists g insN,
+     rest = enc_graph g ++ 0 :: enc_Zss (map ZsN insN) ++ enc_graph g ++ 1 :: 1 :: enc_graph g /\
+     g_wf g /\ length insN = length g /\
+     (forall i j, (j < length g)%nat -> count_occ N.eq_dec (nth j insN []) i = count_occ N.eq_dec (g_out g i) (N.of_nat j)) /\
+     Forall (Sorted N.le) insN) /\
+  (equal_case_ok rest <-> exists g1 g2 res,
+     rest = enc_graph g1 ++ enc_graph g2 ++ 0 :: res :: res :: 1 :: enc_graph g1 ++ enc_graph g2 /\
+     g_wf g1 /\ g_wf g2 /\ (res = 0 \/ res = 1) /\
+     (res = 1 <-> (length g1 = length g2 /\ forall i, Permutation (g_out g1 i) (g_out g2 i)))) /\
+  (simplify_case_ok rest <-> exists g weighted ws rg rws wg obs,
+     rest = enc_graph g ++ weighted :: enc_Zss ws ++ 0 :: enc_graph rg ++ enc_Zss rws ++ 1 :: enc_graph g /\
+     g_wf g /\
+     (if weighted =? 0 then wg = unit_weights g /\ ws = []
+      else Forall2 (fun tw a => wadj_decodes (fst tw) (snd tw) a) (combine g ws) wg /\ length ws = length g) /\
+     map (map fst) wg = g /\
+     Forall2 (fun tw a => wadj_decodes (fst tw) (snd tw) a) (combine rg rws) obs /\ length rws = length rg /\
+     length rg = length g /\
+     Forall2 (fun a o =>
+       map fst o = first_occ (map fst a) /\ NoDup (map fst o) /\
+       (forall t, In t (map fst o) <-> In t (map fst a)) /\
+       (forall t w, In (t, w) o -> (w == wsum t a)%Q)) wg obs /\
+     ((weighted =? 0) = true ->
+        Forall2 (fun l o => forall t w, In (t, w) o -> (w == inject_Z (Z.of_nat (count_occ N.eq_dec l t)))%Q) g obs)) /\
+  (keep_case_ok rest <-> exists g nodes edges status obs,
+     let eflat := flat_pairs edges in
+     rest = enc_graph g ++ enc_Zs nodes ++ enc_Zs eflat ++ status :: Z.of_nat (length obs) :: flat_map enc_sgobs obs
+            ++ 1 :: enc_graph g ++ enc_Zs nodes ++ enc_Zs eflat /\
+     g_wf g /\
+     let nodesN := NsZ nodes in
+     let edgesN := map (fun e => (Z.to_N (fst e), Z.to_N (snd e))) edges in
+     let neg := existsb (fun x => x <? 0) (nodes ++ eflat) in
+     sg_matches (if neg then None else subgraph_keep g nodesN edgesN) status obs /\
+     (neg = false -> keep_wf g nodesN edgesN ->
+        status = 0 /\ exists s, Forall2 sg_row s obs /\ keep_spec_concl g nodesN edgesN s) /\
+     (neg = false -> (exists v, In v nodesN /\ (g_n g <= v)%N) \/ ~ NoDup nodesN -> status = 2)) /\
+  (remove_case_ok rest <-> exists g nodes edges status obs,
+     let eflat := flat_pairs edges in
+     rest = enc_graph g ++ enc_Zs nodes ++ enc_Zs eflat ++ status :: Z.of_nat (length obs) :: flat_map enc_sgobs obs
+            ++ 1 :: enc_graph g ++ enc_Zs nodes ++ enc_Zs eflat /\
+     g_wf g /\
+     sg_matches (subgraph_remove g nodes edges) status obs /\
+     ((zdistinct nodes <= length g)%nat ->
+        status = 0 /\ exists s, Forall2 sg_row s obs /\ remove_spec_concl g nodes edges s) /\
+     ((length g < zdistinct nodes)%nat -> status = 2)) /\
+  (dotstring_case_ok rest <-> exists sz obs, rest = enc_Zs sz ++ 0 :: enc_Zs obs /\
+     let s := NsZ sz in obs = ZsN (dot_string s) /\ unescape (NsZ obs) = Some s) /\
+  (sprint_case_ok rest <-> exists g name haslabel labels hasn nattrs hase eattrs status obs,
+     parse_sprint rest = Some ((g, name, haslabel, labels, hasn, nattrs, hase, eattrs, status, obs, 1, g), []) /\
+     g_wf g /\
+     let d := sprint_opts name haslabel labels hasn nattrs hase eattrs in
+     let stmts := dot_stmts d (g_out g) (g_n g) in
+     somes (map stmt_node stmts) = nodes_upto (g_n g) /\
+     somes (map stmt_edge stmts) = flat_map (fun i => map (fun o => (i, o)) (g_out g i)) (nodes_upto (g_n g)) /\
+     ((status = 0 /\ (forall s a, In s stmts -> In a (stmt_attrs s) -> snd a <> AOther) /\
+       exists body, render_all stmts = Some body /\
+         obs = ZsN ([100; 105; 103; 114; 97; 112; 104; 32] ++ dot_string (d_name d) ++ [32; 123; 10] ++ body ++ [125; 10])%N)
+      \/ (status = 2 /\ obs = [] /\ exists s a, In s stmts /\ In a (stmt_attrs s) /\ snd a = AOther))) /\
+  (hist_case_ok rest <-> exists (steps : list (Z * list Z)) g,
+     rest = Z.of_nat (length steps) :: flat_map (fun s => Z.of_nat (S (length (snd s))) :: fst s :: snd s) steps /\
+     steps <> [] /\
+     Forall (fun s =>
+       (exists r, snd s = enc_graph g ++ r) /\
+       ((fst s = 2 /\ trav_case_ok (snd s)) \/ (fst s = 3 /\ scc_case_ok (snd s)) \/ (fst s = 4 /\ bigraph_case_ok (snd s)) \/
+        (fst s = 5 /\ equal_case_ok (snd s)) \/ (fst s = 6 /\ simplify_case_ok (snd s)) \/ (fst s = 7 /\ keep_case_ok (snd s)) \/
+        (fst s = 8 /\ remove_case_ok (snd s)) \/ (fst s = 10 /\ sprint_case_ok (snd s)))) steps).
+Proof. exact case_meaning_graphops. Qed.
+Print Assumptions C18_check_meaning_graphops.
+
+(* Non-vacuity: real case lines (harness output on /repo, one per operation; op 2 written by hand: the graph
+   0->1,2  1->2  2->0 from root 0 and from the missing root 3) are accepted with code 0; lines with one
+   observed number changed are rejected. *)
+Example C18_check_ok_examples :
+  let ok line := exists tag, check_C18 line = verdict 0 tag (-1) [] in
+  let bad line := exists tag pos diag, check_C18 line = verdict 2 tag pos diag in
+  ok [18; 1; 4; 0; 98; 0; 2; 98; 1; 3; 97; 98; 3; -1; 98] /\
+  bad [18; 1; 4; 0; 98; 0; 2; 98; 1; 3; 97; 98; 3; -1; 99] /\
+  ok [18; 2; 3; 2; 1; 2; 1; 2; 1; 0; 2; 0; 0; 3; 0; 1; 2; 3; 2; 1; 0; 3; 0; 1; 2; 3; 0; 1; 2; 6; 0; 2; 4; 5; 3; 1; 3; 0; 2; 4; 3; 5; 3; 1;
+      3; 2; 0; 0; 0; 0; 0; 0; 0; 1; 3; 2; 1; 2; 1; 2; 1; 0] /\
+  bad [18; 2; 3; 2; 1; 2; 1; 2; 1; 0; 2; 0; 0; 3; 0; 2; 1; 3; 2; 1; 0; 3; 0; 1; 2; 3; 0; 1; 2; 6; 0; 2; 4; 5; 3; 1; 3; 0; 2; 4; 3; 5; 3; 1;
+       3; 2; 0; 0; 0; 0; 0; 0; 0; 1; 3; 2; 1; 2; 1; 2; 1; 0] /\
+  ok [18; 3; 4; 2; 1; 3; 0; 0; 0; 3; 0; 4; 1; 1; 1; 3; 1; 0; 1; 2; 1; 4; 2; 0; 3; 1; 4; 0; 0; 2; 0; 1; 0; 1; 4; 2; 1; 3; 0; 0; 0] /\
+  bad [18; 3; 4; 2; 1; 3; 0; 0; 0; 3; 0; 4; 1; 1; 1; 3; 1; 0; 1; 2; 1; 4; 2; 0; 3; 1; 4; 0; 0; 2; 0; 0; 0; 1; 4; 2; 1; 3; 0; 0; 0] /\
+  ok [18; 4; 3; 2; 2; 1; 1; 0; 5; 2; 0; 2; 0; 1; 0; 3; 3; 1; 2; 2; 2; 0; 2; 3; 0; 2; 2; 3; 2; 2; 1; 1; 0; 5; 2; 0; 2; 0; 1; 1; 1; 3; 2; 2; 1; 1; 0; 5; 2; 0; 2; 0; 1] /\
+  ok [18; 5; 3; 3; 1; 2; 2; 0; 0; 3; 3; 2; 0; 1; 0; 0; 0; 0; 0; 1; 3; 3; 1; 2; 2; 0; 0; 3; 3; 2; 0; 1; 0; 0] /\
+  bad [18; 5; 3; 3; 1; 2; 2; 0; 0; 3; 3; 2; 0; 1; 0; 0; 0; 1; 0; 1; 3; 3; 1; 2; 2; 0; 0; 3; 3; 2; 0; 1; 0; 0] /\
+  ok [18; 6; 4; 1; 3; 2; 1; 2; 2; 1; 3; 1; 1; 0; 0; 0; 4; 1; 3; 2; 1; 2; 2; 1; 3; 1; 1; 4; 1; 4607182418800017408; 2; 4607182418800017408; 4607182418800017408;
+      2; 4607182418800017408; 4607182418800017408; 1; 4607182418800017408; 1; 4; 1; 3; 2; 1; 2; 2; 1; 3; 1; 1] /\
+  ok [18; 7; 3; 5; 2; 2; 0; 0; 1; 1; 2; 0; 2; 1; 2; 2; 1; 0; 0; 2; 1; 1; 1; 2; 1; 0; 2; 0; 0; 1; 3; 5; 2; 2; 0; 0; 1; 1; 2; 0; 2; 1; 2; 2; 1; 0] /\
+  ok [18; 8; 3; 2; 1; 2; 1; 1; 3; 0; 1; 1; 2; 0; 2; 4; 0; 1; 2; 1; 0; 1; 1; 1; 0; 2; 1; 0; 1; 3; 2; 1; 2; 1; 1; 3; 0; 1; 1; 2; 0; 2; 4; 0; 1; 2; 1] /\
+  ok [18; 9; 19; 9; 125; 60; 108; 78; 62; 9; 124; 108; 13; 32; 108; 32; 123; 60; 92; 0; 0; 124; 0; 29; 34; 9; 92; 125; 92; 60; 108; 78; 92; 62; 9; 92; 124; 108; 13;
+      32; 108; 32; 92; 123; 92; 60; 92; 92; 0; 0; 92; 124; 34] /\
+  ok [18; 10; 1; 1; 0; 4; 0; 13; 123; 34; 0; 0; 0; 0; 1; 1; 1; 0; 0; 47; 100; 105; 103; 114; 97; 112; 104; 32; 34; 0; 13; 92; 123; 92; 34; 34; 32; 123; 10; 110; 48; 32;
+      91; 108; 97; 98; 101; 108; 61; 34; 48; 34; 93; 59; 10; 110; 48; 32; 45; 62; 32; 110; 48; 59; 10; 125; 10; 1; 1; 1; 0] /\
+  (* In(1) with its two sources swapped; a merged weight 2.0 instead of 1.0; a wrong NodeMap entry; a changed argument after the
+     call; a quote left unescaped; an edge statement naming the wrong target *)
+  bad [18; 4; 3; 2; 2; 1; 1; 0; 5; 2; 0; 2; 0; 1; 0; 3; 3; 1; 2; 2; 2; 2; 0; 3; 0; 2; 2; 3; 2; 2; 1; 1; 0; 5; 2; 0; 2; 0; 1; 1; 1; 3; 2; 2; 1; 1; 0; 5; 2; 0; 2; 0; 1] /\
+  bad [18; 6; 4; 1; 3; 2; 1; 2; 2; 1; 3; 1; 1; 0; 0; 0; 4; 1; 3; 2; 1; 2; 2; 1; 3; 1; 1; 4; 1; 4607182418800017408; 2; 4607182418800017408; 4607182418800017408;
+       2; 4607182418800017408; 4607182418800017408; 1; 4611686018427387904; 1; 4; 1; 3; 2; 1; 2; 2; 1; 3; 1; 1] /\
+  bad [18; 7; 3; 5; 2; 2; 0; 0; 1; 1; 2; 0; 2; 1; 2; 2; 1; 0; 0; 2; 1; 1; 0; 2; 1; 0; 2; 0; 0; 1; 3; 5; 2; 2; 0; 0; 1; 1; 2; 0; 2; 1; 2; 2; 1; 0] /\
+  bad [18; 8; 3; 2; 1; 2; 1; 1; 3; 0; 1; 1; 2; 0; 2; 4; 0; 1; 2; 1; 0; 1; 1; 1; 0; 2; 1; 0; 1; 3; 2; 1; 2; 1; 1; 3; 0; 1; 1; 2; 0; 2; 4; 0; 1; 2; 2] /\
+  ok [18; 9; 3; 97; 34; 10; 0; 7; 34; 97; 92; 34; 92; 110; 34] /\
+  bad [18; 9; 3; 97; 34; 10; 0; 6; 34; 97; 34; 92; 110; 34] /\
+  bad [18; 10; 1; 1; 0; 4; 0; 13; 123; 34; 0; 0; 0; 0; 1; 1; 1; 0; 0; 47; 100; 105; 103; 114; 97; 112; 104; 32; 34; 0; 13; 92; 123; 92; 34; 34; 32; 123; 10; 110; 48; 32;
+       91; 108; 97; 98; 101; 108; 61; 34; 48; 34; 93; 59; 10; 110; 48; 32; 45; 62; 32; 110; 49; 59; 10; 125; 10; 1; 1; 1; 0] /\
+  (* op 11 (two steps cut out of a real history on the one-node graph: SCC, then MakeBiGraph); the second step on a
+     different graph is rejected *)
+  ok [18; 11; 2; 16; 3; 1; 0; 3; 0; 1; 1; 0; 1; 1; 0; 1; 0; 1; 1; 0; 12; 4; 1; 0; 0; 1; 0; 1; 0; 1; 1; 1; 0] /\
+  bad [18; 11; 2; 16; 3; 1; 0; 3; 0; 1; 1; 0; 1; 1; 0; 1; 0; 1; 1; 0; 8; 4; 0; 0; 0; 0; 1; 1; 0].
+Proof.
+  cbv zeta. repeat split; vm_compute; repeat eexists.
+Qed.
